@@ -14,7 +14,9 @@ RULE = ("rotations: 5 axes x 7 angles (incl. 0, pi, both signs) given as Quatern
         "(up to 1e3) = the transform menu; every transform: inverse round trip of 3 poses, pose transform vs own 4x4 product; every "
         "ordered pair (thorough; quick: every pair over a 40-element sub-menu) composed: value, A-to-C label, mismatched frames rejected, "
         "two-step equality; chains of 3 over frames {base_link, map, cam_front, lidar_top}; registry: every subset of {A->B, B->A, "
-        "B->C} x every ordered frame pair query x key spellings {enum, lower str, TransformKey} x argument forms. state = (kind, rotation "
+        "B->C} x every ordered frame pair query x key spellings {enum, lower str, TransformKey} x argument forms; registry histories: ALL sequences of "
+        "length <= 4 (thorough 5) over {set A->B (two matrices), set B->A, delete A->B, delete B->A, query A->B, query B->A} on one "
+        "registry instance against a dict-of-matrices reference. state = (kind, rotation "
         "input form, axis, angle class, translation) / (registered subset, query, spelling, outcome); non-trivial = rotation about a tilted "
         "axis or a registry answer through the inverse fallback")
 ASSUMPTIONS = ["own 4x4 homogeneous-matrix reference (quaternion-to-matrix formula written out); orientations compared up to quaternion sign; tolerance 1e-9 "
@@ -25,6 +27,11 @@ TRANS = [(0.0, 0.0, 0.0), (1.0, 2.0, 3.0), (-300.0, 120.0, 0.5), (1000.0, 1000.0
 FORMS = ["quat", "list", "neglist", "matrix"]
 POSES = [((1.0, 0.0, 0.0), (0, 0, 1), 0.0), ((-4.0, 2.5, 1.0), (0, 0, 1), 2.2), ((0.3, 7.0, -2.0), (0.2, 0.1, 0.9), -1.0)]
 FR = [FrameID.BASE_LINK, FrameID.MAP, FrameID.CAM_FRONT, FrameID.LIDAR_TOP]
+
+
+# registry history alphabet: two alternative A->B matrices, one B->A matrix, deletions and both queries
+REG_OPS = [("set", "AB", 0), ("set", "AB", 1), ("set", "BA", 2), ("del", "AB"), ("del", "BA"), ("q", "AB"), ("q", "BA")]
+REG_ENTRIES = [(3, 2, 1), (1, 4, 2), (4, 5, 3)]
 
 
 def rq(axis, angle):
@@ -73,6 +80,9 @@ def units(tier, seed):
         u.append(dict(kind="pairs", first=[list(e) for e in sub[i:i + 5]], tier=tier))
     u.append(dict(kind="chains"))
     u.append(dict(kind="registry"))
+    # explicit-state search over registry histories: set / delete / query on ONE registry instance
+    for first in range(len(REG_OPS)):
+        u.append(dict(kind="reg_hist", first=first, depth=4 if tier == "quick" else 5))
     return u
 
 
@@ -98,6 +108,13 @@ def run_unit(unit, acc):
                 if frames[0] > 1:
                     continue
                 check_case(dict(kind="chain", a=list(a), b=list(b), c=list(c), frames=list(frames)), acc)
+    elif unit["kind"] == "reg_hist":
+        def rec(h):
+            check_case(dict(kind="reg_hist", ops=list(h)), acc)
+            if len(h) < unit["depth"]:
+                for i in range(len(REG_OPS)):
+                    rec(h + [i])
+        rec([unit["first"]])
     else:
         for mask in range(8):
             for s, d in itertools.product(range(3), repeat=2):
@@ -121,6 +138,63 @@ def check_case(case, acc):
         acc.violation(sig, msg + " | " + str(case), case)
 
     k = case["kind"]
+    if k == "reg_hist":
+        # replay the history on a fresh registry next to a reference model (a plain dict of 4x4 matrices); check the LAST operation
+        A, B = FrameID.BASE_LINK, FrameID.MAP
+        td = TransformDict()
+        ref = {}
+        p = (1.5, -2.0, 0.3)
+        q = Quaternion(rq((0, 0, 1), 0.7))
+        last_out = None
+        for n, oi in enumerate(case["ops"]):
+            op = REG_OPS[oi]
+            final = n == len(case["ops"]) - 1
+            if op[0] == "set":
+                src, dst = (A, B) if op[1] == "AB" else (B, A)
+                H, M = build(REG_ENTRIES[op[2]], "quat", src, dst)
+                td[(src, dst)] = H
+                ref[op[1]] = M
+                last_out = ("set",)
+            elif op[0] == "del":
+                src, dst = (A, B) if op[1] == "AB" else (B, A)
+                acc.exec()
+                try:
+                    del td[(src, dst)]
+                    got = "ok"
+                except KeyError:
+                    got = "KeyError"
+                want = "ok" if op[1] in ref else "KeyError"
+                ref.pop(op[1], None)
+                last_out = ("del", got)
+                if final and got != want:
+                    bad("registry-history:delete", "deleting %s: %s, reference registry says %s" % (op[1], got, want))
+            else:
+                src, dst = (A, B) if op[1] == "AB" else (B, A)
+                rev = "BA" if op[1] == "AB" else "AB"
+                want = ref[op[1]] if op[1] in ref else (np.linalg.inv(ref[rev]) if rev in ref else None)
+                acc.exec()
+                try:
+                    gp, gr = td.transform((src, dst), p, q)
+                    got = "ok"
+                except KeyError:
+                    got = "KeyError"
+                last_out = ("q", got)
+                if final:
+                    acc.compared()
+                    if want is None:
+                        if got != "KeyError":
+                            bad("registry-history:missing-answered", "query %s answered although neither direction is registered any more" % op[1])
+                    elif got != "ok":
+                        bad("registry-history:query-failed", "query %s raised KeyError although a direction is registered" % op[1])
+                    else:
+                        wp = want @ np.array([p[0], p[1], p[2], 1.0])
+                        if not close(gp, wp[:3], 1e-7) or not same_rot(gr, want[:3, :3] @ q.rotation_matrix, 1e-8):
+                            bad("registry-history:stale-answer", "query %s returns %s, the currently registered matrices give %s" % (op[1], gp, wp[:3]))
+        acc.state(("reg_hist", tuple(sorted(ref)), tuple(case["ops"][-2:]), last_out), nontrivial=len(case["ops"]) >= 3 and REG_OPS[case["ops"][-1]][0] == "q")
+        acc.outcome(("reg_hist", last_out))
+        if acc.cases % 997 == 1:
+            acc.sample(dict(case, ops_named=[list(map(str, REG_OPS[i])) for i in case["ops"]]))
+        return
     if k == "single":
         H, M = build(tuple(case["entry"]), case["form"], FrameID.BASE_LINK, FrameID.MAP)
         acc.exec()
